@@ -23,6 +23,7 @@ EXPLANATION = (
     "name bound on the class; the module facade resolves Tags.<name> through module globals before the module "
     "__getattr__, so the module-level add path must reject names bound in the module. R-SHARED: all library state is "
     "allocated in __init__; R-FWD: module functions forward to the same-named method of the single module library.")
+EXPLANATION += (' Module-level add_tag is atomic (a rejected name has not been stored). itemize is a pipeline over enumerate(names) / range(len(names)) / zip(names, range(len(names))).')
 ASSUMPTIONS = ["tag names are strings (quantifier)", "instance dict precedes non-data class attributes; module globals precede module __getattr__ (language facts)",
                "single-threaded use"]
 
